@@ -36,6 +36,8 @@ import (
 	"time"
 
 	storetypes "cosmossdk.io/store/types"
+	"github.com/cosmos/cosmos-sdk/codec"
+	codectypes "github.com/cosmos/cosmos-sdk/codec/types"
 	"github.com/cosmos/cosmos-sdk/testutil"
 	sdk "github.com/cosmos/cosmos-sdk/types"
 
@@ -104,6 +106,7 @@ func (c epCall) String() string { return fmt.Sprintf("%s.%s.%d.%d", c.id, c.kind
 type epEngine struct {
 	ctx      sdk.Context
 	k        *epochskeeper.Keeper
+	epKey    *storetypes.KVStoreKey
 	subKey   *storetypes.KVStoreKey
 	nsubs    int
 	script   map[string]epEntry // key id:kind:sub
@@ -193,7 +196,7 @@ func newEpEngine(nsubs int) *epEngine {
 	subKey := storetypes.NewKVStoreKey("verifsubs")
 	ctx := testutil.DefaultContextWithKeys(map[string]*storetypes.KVStoreKey{epochstypes.StoreKey: epKey, "verifsubs": subKey},
 		map[string]*storetypes.TransientStoreKey{"transient_test": storetypes.NewTransientStoreKey("transient_test")}, nil)
-	e := &epEngine{subKey: subKey, nsubs: nsubs, gasLimit: 1 << 50}
+	e := &epEngine{epKey: epKey, subKey: subKey, nsubs: nsubs, gasLimit: 1 << 50}
 	k := epochskeeper.NewKeeper(epKey)
 	hooks := make([]epochstypes.EpochHooks, nsubs)
 	for i := range hooks {
@@ -1008,6 +1011,9 @@ func epHistory(o *Out, g *Gen) {
 		}
 		stores = istores
 
+		if g.Intn(45) == 0 {
+			epExportImport(o, e, now, height, timers)
+		}
 		if g.Intn(70) == 0 || b == nblocks-1 {
 			dts, dst := e.readState(e.ctx)
 			o.Emit("epochs dump", epObs(false, dts, dst, nil, nil, nil), false)
@@ -1055,4 +1061,66 @@ func epSameMultiset(a, b []epCall) bool {
 		}
 	}
 	return true
+}
+
+// epExportImport (C19): the REAL x/epochs ExportGenesis -> JSON -> every key of the epochs store deleted -> the REAL InitGenesis under a
+// context with the current block time / height, in a cache context written back when nothing panicked; the blocks go on.  The
+// observation is the `dump` line of the imported state.  Oracle: every field of every timer is what it was, except the one InitGenesis
+// overwrites (AddEpochInfo: CurrentEpochStartHeight = the import height, F30); the subscribers' stores are not touched.
+func epExportImport(o *Out, e *epEngine, now *big.Int, height int64, timers []epTimer) {
+	cdc := codec.NewProtoCodec(codectypes.NewInterfaceRegistry())
+	line := fmt.Sprintf("epochs exportimport %s %d", now, height)
+	_, preStores := e.readState(e.ctx)
+	cctx, write := e.ctx.WithBlockTime(epTime(now)).WithBlockHeight(height).WithGasMeter(storetypes.NewInfiniteGasMeter()).CacheContext()
+	ok := catch(func() {
+		bz := cdc.MustMarshalJSON(e.k.ExportGenesis(cctx))
+		store := cctx.KVStore(e.epKey)
+		var keys [][]byte
+		it := store.Iterator(nil, nil)
+		for ; it.Valid(); it.Next() {
+			keys = append(keys, append([]byte{}, it.Key()...))
+		}
+		it.Close()
+		for _, key := range keys {
+			store.Delete(key)
+		}
+		var gs epochstypes.GenesisState
+		cdc.MustUnmarshalJSON(bz, &gs)
+		e.k.InitGenesis(cctx, gs)
+	})
+	if !ok {
+		o.Emit(line, "panic", true)
+		o.Fail("export-import:epochs:panics", line)
+		return
+	}
+	write()
+	its, ist := e.readState(e.ctx)
+	o.Emit(line, epObs(false, its, ist, nil, nil), true)
+	o.Count("exportimport")
+	if !epStoresEq(ist, preStores) {
+		o.Fail("export-import:epochs:subscriber-stores-touched", line)
+	}
+	if len(its) != len(timers) {
+		o.Fail("export-import:epochs:timer-count", fmt.Sprintf("%s: %d -> %d", line, len(timers), len(its)))
+		return
+	}
+	var lost []string
+	for i := range timers {
+		was := timers[i]
+		got := its[i]
+		if got.height != was.height {
+			lost = append(lost, fmt.Sprintf("%s: current_epoch_start_height %d -> %d", was.id, was.height, got.height))
+		}
+		was.height = got.height
+		if got.obs() != was.obs() {
+			o.Fail("export-import:epochs:timer-fields", fmt.Sprintf("%s: %s -> %s", line, timers[i].obs(), got.obs()))
+		}
+		timers[i].height = got.height
+	}
+	if len(lost) > 0 {
+		o.Count("exportimport.start-height-overwritten")
+		if os.Getenv("VERIF_EXPORT_IMPORT_LOSSES") != "count" {
+			o.Fail("export-import:module-state:epochs:.epochs[].current_epoch_start_height", fmt.Sprintf("import at height %d: %s", height, strings.Join(lost, "; ")))
+		}
+	}
 }
